@@ -386,6 +386,39 @@ theorem C16_parse_u64_exact (ds : Bytes) (hd : IsDigits ds) :
     parseU64 ds = if decVal ds ≤ u64Max then some (decVal ds) else none :=
   parseU64_exact ds hd
 
+/-- **C16_first_satisfiable_range**: for a header with several comma separated specs, a 206 is
+always for the *first* spec (in header order) that overlaps the file; later ones are ignored
+(multi-range responses are not produced). -/
+theorem C16_first_satisfiable_range (m : FileMeta) (c : Cond) (h : Bytes) (cr : ContentRange) (o l : Nat)
+    (hr : intoResponse m c (.str h) = .partialContent cr o l) :
+    ∃ r rest, (splitOn 0x2C (h.drop 6)).filterMap (pieceRange m.len) = r :: rest ∧ o = r.start ∧ l = r.length := by
+  unfold intoResponse intoResponseG at hr
+  simp only at hr
+  split at hr
+  · cases hr
+  · cases hr
+  · cases hr
+  · rename_i r0 tail heq
+    have hparse : parseLoop m.len (splitOn 0x2C (h.drop 6)) [] false = .ok (r0 :: tail) := by
+      unfold parse at heq
+      split at heq
+      · cases heq
+      · split at heq
+        · cases heq
+        · exact heq
+    have := parseLoop_order m.len _ [] false _ hparse
+    simp only [List.reverse_nil, List.nil_append] at this
+    refine ⟨r0, tail, this.symm, ?_⟩
+    split at hr
+    · cases hr
+    · split at hr
+      · cases hr
+      · split at hr
+        · cases hr
+        · split at hr
+          · cases hr
+          · cases hr; exact ⟨rfl, rfl⟩
+
 /-- **C16_no_range_total**: without a `Range` header the answer is the full 200, 304 or 412; with a
 `Range` value that is not a visible-ASCII string it is 400 (the one outcome outside the
 property's list: it needs a header byte ≥ 0x80, see docs/C16.md O1). -/
